@@ -508,6 +508,9 @@ impl<'forest, I: Interner> SolveState<'forest, I> {
         self.stack
             .push(initial_table, Minimums::MAX, self.forest.increment_clock());
         loop {
+            #[cfg(chalk_verif)]
+            crate::verif::count_work();
+
             let clock = self.stack.top().clock;
             // If we had an active strand, continue to pursue it
             let table = self.stack.top().table;
